@@ -23,7 +23,7 @@ import (
 	"github.com/tstranex/u2f"
 )
 
-var vForgeTurn int64
+var vForgeTurn, vExpireTurn int64
 
 type vSessWorld struct {
 	lost map[string]*vU2FToken
@@ -72,6 +72,11 @@ func newSessWorld(mechs []string) *vSessWorld {
 		g.vip.setCode(u, g.vipCode[u])
 		g.secrets[u] = []string{"JBSWY3DPEHPK3PXPJBSWY3DPEHPK3PXP", "KRSXG5CTMVRXEZLUKRSXG5CTMVRXEZLU"}[i]
 		p := &userProfile{Username: u, DisplayName: u}
+		if i == 1 {
+			// a profile from before the WebAuthn days: the name fields were never filled in (they are set when a user
+			// starts a WebAuthn registration); the user only ever enrolled a U2F token
+			p = &userProfile{}
+		}
 		p.U2fAuthData = map[int64]*u2fAuthData{}
 		p.TOTPAuthData = map[int64]*totpAuthData{}
 		if g.mechs["u2f"] {
@@ -382,7 +387,11 @@ func (g *vSessWorld) step(name string, args map[string]interface{}) (vResp, [][]
 		g.gate.readOnly = vBool(args, "on")
 		g.gate.mu.Unlock()
 	case "Expire":
+		// long expired, or (every other time) expired two seconds ago: expired is expired
 		past := time.Now().Add(-time.Hour)
+		if atomic.AddInt64(&vExpireTurn, 1)%2 == 0 {
+			past = time.Now().Add(-2 * time.Second)
+		}
 		k := vStr(args, "key")
 		switch vStr(args, "what") {
 		case "chal":
